@@ -120,6 +120,10 @@ def gate_monitor(cfg, case, o):
         presented = (env.get("HTTP_X_REMOTE_USER", ""), "")
     elif case["decode"] and case["decode"][0][2] is not None and ":" in case["decode"][0][2]:
         presented = tuple(case["decode"][0][2].split(":", 1))
+    if ext_kind and not presented[0] and (backend or homes or any(e[4] for e in disp)):
+        lookalike = {k: v for k, v in env.items() if k in X.IDENTITY_KEYS and k != X.CONFIGURED_KEY[cfg["kind"]]}
+        return ("%s is absent/empty, so the request is anonymous -- but back-end/home/handler activity %r (other identity-looking "
+                "variables in the request: %r)" % (X.CONFIGURED_KEY[cfg["kind"]], ev, lookalike))
     for e in backend:
         if presented is None or not presented[0]:
             return "back-end asked although no login was presented: %r" % (e,)
@@ -176,11 +180,9 @@ def gate_monitor(cfg, case, o):
     return None
 
 
-def strip_identity(env):
-    e = dict(env)
-    e.pop("REMOTE_USER", None)
-    e.pop("HTTP_X_REMOTE_USER", None)
-    return e
+def strip_identity(env, keep=None):
+    """The same request without any identity-looking variable / header except the configured one."""
+    return {k: v for k, v in env.items() if k not in X.IDENTITY_KEYS or k == keep}
 
 
 def gate_suite(ctx):
@@ -208,16 +210,23 @@ def gate_suite(ctx):
                     ctx.count("gate:dispatched-as-user")
                 err = gate_monitor(cfg, case, o)
                 if err:
-                    ctx.violation("C05 gate: " + err, dict(kind="gate", cfg=cfg, case=_json_case(case), observed=_json_obs(o)))
+                    ctx.count("gate:violation")
+                    if ctx.distribution["gate:violation"] <= 6:      # a handful of replays is enough, the count is in the evidence
+                        ctx.violation("C05 gate: " + err, dict(kind="gate", cfg=cfg, case=_json_case(case), observed=_json_obs(o)))
                 # spoofing: identity headers must not matter for another back-end
-                if cfg["kind"] not in ("remote_user", "http_x_remote_user") and ("REMOTE_USER" in case["env"] or "HTTP_X_REMOTE_USER" in case["env"]) \
-                        and not o["store_changed"]:
-                    c2 = dict(case, env=strip_identity(case["env"]), precreate=[])
+                keep = X.CONFIGURED_KEY.get(cfg["kind"])
+                extra = [k for k in case["env"] if k in X.IDENTITY_KEYS and k != keep]
+                if extra and not o["store_changed"]:
+                    c2 = dict(case, env=strip_identity(case["env"], keep), precreate=[])
                     o2 = X.run_case(rig, c2)
                     spoof_checked += 1
                     if (o2["status"], o2["www"], o2["location"], o2["events"]) != (o["status"], o["www"], o["location"], o["events"]):
-                        ctx.violation("C05 gate: REMOTE_USER / X-Remote-User changed the outcome under auth type %s" % cfg["kind"],
-                                      dict(kind="gate", cfg=cfg, case=_json_case(case), observed=_json_obs(o), without_headers=_json_obs(o2)))
+                        ctx.count("gate:violation:spoof")
+                    if (o2["status"], o2["www"], o2["location"], o2["events"]) != (o["status"], o["www"], o["location"], o["events"]) \
+                            and ctx.distribution["gate:violation:spoof"] <= 3:
+                        ctx.violation("C05 gate: un-configured identity variables %r changed the outcome under auth type %s" % (extra, cfg["kind"]),
+                                      dict(kind="gate", cfg=cfg, case=_json_case(case), observed=_json_obs(o), without_headers=_json_obs(o2)),
+                                      signature="identity-from-unconfigured-header")
         finally:
             rig.close()
     ctx.extra["spoof_pairs_checked"] = spoof_checked
@@ -226,7 +235,7 @@ def gate_suite(ctx):
         ctx.case(("gate", cfg["kind"], cfg["lc"], cfg["uc"], cfg["sd"], cfg["script_name"], cfg["internal"], cfg["max_len"],
                   tuple(sorted(env.items())), case["handler"], tuple(sorted((k, str(v)) for k, v in case["script"].items())),
                   tuple(case["exists"]), tuple(case["rights_w"])),
-                 nontrivial="HTTP_AUTHORIZATION" in env or "REMOTE_USER" in env or "HTTP_X_REMOTE_USER" in env)
+                 nontrivial="HTTP_AUTHORIZATION" in env or any(k in env for k in X.IDENTITY_KEYS))
     ctx.samples += [dict(suite="gate", auth_type=cfg["kind"], environ=case["env"], status=o["status"], events=[list(e) for e in o["events"]])
                     for (cfg, case), o in cases[7:9]]
     bad = diff_batched(ctx, "c05_gate", GATE_FN, cases, X.enc_gcase, X.enc_gobs, "eq_gobs", shard=100)
@@ -490,6 +499,49 @@ def live_monitor(ctx):
                             ctx.violation("C05 live: user %r changed entries outside its principal collection: %r" % (want, new[:4]), rep)
                         if conf["auth"]["type"] != "none" and "root" in [x.split("/")[1] for x in new if x.count("/") >= 1]:
                             ctx.violation("C05 live: REMOTE_USER spoofing created /root", rep)
+        # external-login back-ends with the real handlers: only the configured variable names the user
+        for kind, key in X.CONFIGURED_KEY.items():
+            conf = {"auth": {"type": kind}, "rights": {"type": "owner_only"}}
+            with impl.Server(conf) as srv:
+                for _ in range(ctx.n(40, 400)):
+                    env = {}
+                    if rng.random() < 0.5:
+                        env[key] = rng.choice(["alice", "bob", "", "a/b"])
+                    for k in rng.sample([x for x in X.IDENTITY_KEYS if x != key], rng.randint(1, 3)):
+                        env[k] = rng.choice(["admin", "root"])
+                    want = env.get(key, "")
+                    if not safe_component(want):
+                        want = ""
+                    method = rng.choice(["PROPFIND", "PROPFIND", "PUT", "MKCALENDAR", "MKCOL", "DELETE", "GET"])
+                    path = rng.choice(["/", "/admin/", "/admin/cal/", "/root/x.ics", "/%s/" % (want or "admin"), "/%s/cal/" % (want or "root")])
+                    data = PRINCIPAL_BODY if method == "PROPFIND" else (impl.event("u1") if method == "PUT" else None)
+                    before = impl.tree_dump(srv.folder)
+                    st, hd, body = srv.request(method, path, data=data, environ=env, HTTP_DEPTH="0")
+                    after = impl.tree_dump(srv.folder)
+                    n += 1
+                    ctx.case(("live-ext", kind, tuple(sorted(env.items())), method, path), True)
+                    ctx.count("live:status:%d" % st)
+                    rep = dict(kind="live", conf=conf, method=method, path=path, environ=env, status=st)
+                    new = [e[0] for e in after if e not in before]
+                    principal = None
+                    if method == "PROPFIND" and st == 207:
+                        for href, props in impl.parse_multistatus(body).items():
+                            cup = props.get("D:current-user-principal") if isinstance(props, dict) else None
+                            if cup and cup[0] == 200 and cup[1].find("{DAV:}href") is not None:
+                                principal = urllib.parse.unquote(cup[1].find("{DAV:}href").text)
+                    if not want:
+                        if new or before != after:
+                            ctx.violation("C05 live: %s absent/empty, yet the store changed: %r" % (key, new[:4]), rep,
+                                          signature="identity-from-unconfigured-header")
+                        if principal is not None:
+                            ctx.violation("C05 live: %s absent/empty, yet current-user-principal is %r" % (key, principal), rep,
+                                          signature="identity-from-unconfigured-header")
+                    else:
+                        if principal is not None and principal != "/%s/" % want:
+                            ctx.violation("C05 live: current-user-principal is %r, %s says %r" % (principal, key, want), rep)
+                        if any(not (x == "collection-root" or x == "collection-root/" + want or x.startswith("collection-root/%s/" % want))
+                               for x in new):
+                            ctx.violation("C05 live: user %r (from %s) changed entries outside its principal collection: %r" % (want, key, new[:4]), rep)
     finally:
         shutil.rmtree(d, ignore_errors=True)
     ctx.extra["live_requests"] = n
@@ -517,9 +569,27 @@ def skeleton_obligation(ctx):
             except OSError:
                 detail = out[-800:]
         ctx.obligation("Proofs/C05GenEqGate.v:Gen_gate_skeleton_eq", rc == 0, detail)
-        hits = core.forbidden_scan(["Proofs/C05GenEqGate.v"])
+        # third part: which environ keys the auth back-ends and the credential part of the gate read
+        ctx.obligation("translate:AuthEnvC05Gen", "AuthEnvC05Gen" not in errs, errs.get("AuthEnvC05Gen", ""))
+        rc, out = core.make(["Proofs/C05GenEqAuthEnv.vo"])
+        detail = ""
+        if rc != 0:
+            try:
+                import difflib
+                import re
+                gen = open(os.path.join(core.COQ, "Gen/AuthEnvC05Gen.v")).read()
+                exp = open(os.path.join(core.COQ, "Proofs/C05GenEqAuthEnv.v")).read()
+                a = re.findall(r'^  \("radicale.*$', exp, re.M)
+                b = re.findall(r'^  \("radicale.*$', gen, re.M)
+                detail = "environ keys read by the auth back-ends / the gate changed:\n" + "\n".join(
+                    l for l in difflib.unified_diff(a, b, "modelled", "repository", lineterm="", n=0))[:1200]
+            except OSError:
+                detail = out[-800:]
+        for lem in core.theorems_in("Proofs/C05GenEqAuthEnv.v", ("Lemma",)):
+            ctx.obligation("Proofs/C05GenEqAuthEnv.v:%s" % lem, rc == 0, detail)
+        hits = core.forbidden_scan(["Proofs/C05GenEqGate.v", "Proofs/C05GenEqAuthEnv.v"])
         if hits:
-            ctx.obligation("no-forbidden-vernacular:C05GenEqGate", False, "\n".join(hits))
+            ctx.obligation("no-forbidden-vernacular:C05GenEq*", False, "\n".join(hits))
 
 
 # ====================================================================================== entry points
@@ -540,7 +610,7 @@ def run(ctx):
     ctx.trusted += ["translate/t_c05.py (login-map translation, gate statement skeleton)",
                     "vlib/x_C05*.py: instrumentation of the real Application (do_* / _login / create_collection wrapped on the instance), "
                     "classification of CONTENT_LENGTH by int(), tables of library answers"]
-    ctx.prove(extra_targets=["Gen/GateSkelGen.vo"])
+    ctx.prove(extra_targets=["Gen/GateSkelGen.vo", "Gen/AuthEnvC05Gen.vo"])
     ctx.log("proved")
     skeleton_obligation(ctx)
     text_suite(ctx)
